@@ -4,5 +4,6 @@ CONSTANTS
   Credit = 2
   MayLose = TRUE
   Hangs = {1, 2}
+  Hostile = {}
 INVARIANT Invariants
 CHECK_DEADLOCK FALSE
